@@ -38,6 +38,8 @@ for k, t, p, w in itertools.product([0, 1], [0, 1, 2], [0, 1, 2], [0, 1]):
     c09.append(job("H_C09_fail", conc=True, kind=k, timing=t, prefix=p, wfail=w))
 for e, p in itertools.product([1, 2], [0, 1, 2]):
     c09.append(job("H_C09_fail", conc=True, kind=1, timing=0, prefix=p, wfail=0, eof=e))
+for e, k in itertools.product([3, 4], [0, 1]):
+    c09.append(job("H_C09_fail", conc=True, kind=k, timing=0, prefix=0, wfail=0, eof=e))
 c09.append(job("H_C09_fail", conc=True, kind=0, timing=0, prefix=0, wfail=0, eof=1))
 P["C09"] = {
  "title": "client transport failure fails every call, none hangs",
@@ -58,7 +60,7 @@ P["C01"] = {
  "quick": [job("H_C01_direct", conc=True, reach=["quiescent"], callers=1), job("H_C01_direct", conc=True, reach=["quiescent"], callers=2),
            job("H_C01_topo", conc=True, reach=["quiescent"], topo=1, callers=1), job("H_C01_topo", conc=True, reach=["quiescent"], topo=2, callers=1), job("H_C01_topo", conc=True, reach=["quiescent"], topo=3, callers=1),
            job("H_C01_topo", conc=True, reach=["quiescent"], topo=3, callers=2), job("H_C01_topo", conc=True, reach=["quiescent"], topo=1, callers=2),
-           dict(job("H_C01_direct", conc=True, callers=2), race=True), job("H_C05_blocked_write", conc=True, reach=["checked"])],
+           dict(job("H_C01_direct", conc=True, callers=2), race=True), job("H_C05_blocked_write", conc=True, reach=["checked"]), dict(job("H_C19_ws_write_conc", conc=True, reach=["checked"]), env=True, race=True)],
  "thorough": [job("H_C05_blocked_write", conc=True, reach=["checked"]), job("H_C01_direct", conc=True, reach=["quiescent"], callers=1), job("H_C01_direct", conc=True, reach=["quiescent"], callers=2),
               job("H_C01_direct", conc=True, reach=["quiescent"], callers=2, tcap=1),
               job("H_C01_topo", conc=True, reach=["quiescent"], topo=1, callers=2), job("H_C01_topo", conc=True, reach=["quiescent"], topo=2, callers=2), job("H_C01_topo", conc=True, reach=["quiescent"], topo=3, callers=2),
@@ -73,8 +75,9 @@ P["C02"] = {
  "bounds": "one bidirectional stream, real client and server over the channel transport; client programs {send-all-then-receive, ping-pong, separate sender/receiver goroutines, half-close first} x handler programs {echo, burst, reply-after-EOF, return-before-EOF}; msgs <= 1 (quick) / 2 (thorough); symbolic payloads; all interleavings",
  "assumptions": GEN_ASSUME + ["programs in which one side sends without reading use a transport queue (tcap) that accepts their writes: back-pressure deadlocks between application programs are outside the property"],
  "quick": [c02(0,0,1), c02(1,0,1), c02(2,0,1), c02(3,0,1), c02(0,2,1), c02(0,3,1), c02(3,1,1,tcap=2), c02(0,1,1,tcap=3),
-           job("H_C05_concurrent_ids", conc=True, reach=["checked"], n=0, streams=2), job("H_C05_merge", conc=True, reach=["checked"], bodies=2)],
- "thorough": [c02(0,0,1), c02(1,0,1), c02(2,0,1), c02(3,0,1), c02(0,2,1), c02(0,3,1), c02(3,1,1,tcap=2), c02(0,1,1,tcap=3),
+           job("H_C05_concurrent_ids", conc=True, reach=["checked"], n=0, streams=2), job("H_C05_merge", conc=True, reach=["checked"], bodies=2),
+           job("H_C03_stream", conc=True, ek=10, nd=1, pos=1, sending=0, tcap=2), job("H_C03_stream", conc=True, ek=1, nd=1, pos=1, sending=0, tcap=2, ic=1)],  # EOF exactly when the handler returned success: odd error values, interceptors installed
+ "thorough": [job("H_C03_stream", conc=True, ek=10, nd=1, pos=1, sending=0, tcap=2), job("H_C03_stream", conc=True, ek=1, nd=1, pos=1, sending=0, tcap=2, ic=1), c02(0,0,1), c02(1,0,1), c02(2,0,1), c02(3,0,1), c02(0,2,1), c02(0,3,1), c02(3,1,1,tcap=2), c02(0,1,1,tcap=3),
               c02(0,0,2), c02(1,0,2), c02(0,2,2), c02(0,3,2), c02(3,1,2,tcap=3)],
 }
 
@@ -83,10 +86,12 @@ c03q = [job("H_C03_unary", conc=True, ek=ek, nd=2) for ek in range(0, 10)] + [jo
        [job("H_C03_stream", conc=True, ek=ek, nd=1, pos=pos, sending=0, tcap=2) for ek in (8, 9) for pos in (0, 1)] + \
        [job("H_C03_stream", conc=True, ek=ek, nd=1, pos=pos, sending=0, tcap=2) for ek in (0, 1, 3, 4, 6) for pos in (0, 1)] + \
        [job("H_C03_stream", conc=True, ek=1, nd=1, pos=0, sending=1, tcap=2)] + \
+       [job("H_C03_unary", conc=True, reach=["error"], ek=10, nd=0), job("H_C03_stream", conc=True, ek=10, nd=1, pos=0, sending=0, tcap=2), job("H_C03_stream", conc=True, ek=10, nd=1, pos=1, sending=0, tcap=2)] + \
+       [job("H_C03_unary", conc=True, ek=ek, nd=1, ic=ic) for ek in (0, 1) for ic in (1, 2)] + [job("H_C03_stream", conc=True, ek=ek, nd=1, pos=pos, sending=0, tcap=2, ic=ic) for ek in (0, 1) for pos in (0, 1) for ic in (1, 2)] + \
        [job("H_C07_cancel", conc=True, hmode=2, cprog=0, m=1, fault=0, tcap=1)]  # no success reported after the caller abandoned a failing stream
 P["C03"] = {
  "title": "the status a handler finishes with is the status the caller observes",
- "bounds": "handler result from {nil, status error with symbolic code 1..16 and symbolic 2-byte message (any bytes), the same wrapped by fmt.Errorf(%w) / pkg/errors.Wrap, plain error with symbolic text, context.Canceled, context.DeadlineExceeded, status with 1..2 details}; unary end to end; bidi stream with the error before any message / after one exchange, caller idle or still sending (reset vs trailer ordering); all interleavings",
+ "bounds": "handler result from {nil, status error with symbolic code 1..16 and symbolic 2-byte message (any bytes), the same wrapped by fmt.Errorf(%w) / pkg/errors.Wrap, plain error with symbolic text, context.Canceled, context.DeadlineExceeded, status with 1..2 details, an error whose gRPC status says OK}; with no / one / two chained pass-through server interceptors; unary end to end; bidi stream with the error before any message / after one exchange, caller idle or still sending (reset vs trailer ordering); all interleavings",
  "assumptions": GEN_ASSUME + ["status conversion is grpc's own code executed from SSA (status.FromError/FromContextError/FromProto); proto.Clone modelled as deep copy"],
  "quick": c03q,
  "thorough": c03q + [job("H_C03_stream", conc=True, ek=ek, nd=1, pos=1, sending=1, tcap=2) for ek in (1, 3)] + [job("H_C03_stream", conc=True, ek=3, nd=1, pos=0, sending=1, tcap=2)],
@@ -95,12 +100,12 @@ P["C03"] = {
 # ---------------------------------------------------------------- C04
 P["C04"] = {
  "title": "request metadata, response headers and trailers arrive intact",
- "bounds": "ToMetadata(ToKeyValue(md)) for K keys (text and -bin, every letter case), 1..V values per key, every value of length 0..vlen over all 256 byte values, all map iteration orders; repeated-MD join; header emission modes (SetHeader+first message, SendHeader, with trailer; handler ok / error) end to end (H_C04_stream_md); request metadata (upper-case key, two values, one -bin value of 2 arbitrary bytes) end to end for one unary and one streaming call (H_C08_e2e, md=1)",
+ "bounds": "ToMetadata(ToKeyValue(md)) for K keys (text and -bin, every letter case), 1..V values per key, every value of length 0..vlen over all 256 byte values, all map iteration orders; repeated-MD join; header emission modes (SetHeader+first message, SendHeader, with trailer; handler ok / error) end to end (H_C04_stream_md); unary response headers and trailers on the wire for SetHeader/SendHeader/SetTrailer in three orders, handler ok / error (H_C04_unary_md); request metadata (upper-case key, two values, one -bin value of 2 arbitrary bytes) end to end for one unary and one streaming call (H_C08_e2e, md=1)",
  "assumptions": ["encoding/base64 executed from its own SSA (tables as SMT arrays)", "keys are ASCII letters and '-' (gRPC key alphabet)"],
  "quick": [job("H_C04_roundtrip", reach=["checked"], K=2, V=2, vlen=2), job("H_C04_roundtrip", reach=["checked"], K=1, V=1, vlen=3, allbin=1), job("H_C04_join", reach=["checked"]),
            job("H_C04_request_md", reach=["checked"], deadline=0), job("H_C04_request_md", reach=["checked"], deadline=1)] +
-          [job("H_C04_stream_md", conc=True, reach=["checked"], mode=m, herr=h) for m in (0, 1, 2) for h in (0, 1)] + [job("H_C04_stream_md", conc=True, reach=["checked"], mode=m, herr=0) for m in (3, 4)] + [c08e(0, 0, 1), c08e(1, 0, 1)],
- "thorough": [c08e(0, 0, 1), c08e(1, 0, 1), c08e(0, 1, 1)] + [job("H_C04_stream_md", conc=True, reach=["checked"], mode=m, herr=h) for m in (0, 1, 2) for h in (0, 1)] + [job("H_C04_request_md", reach=["checked"], deadline=0), job("H_C04_request_md", reach=["checked"], deadline=1), job("H_C04_roundtrip", reach=["checked"], K=2, V=2, vlen=2), job("H_C04_roundtrip", reach=["checked"], K=1, V=1, vlen=3, allbin=1),
+          [job("H_C04_stream_md", conc=True, reach=["checked"], mode=m, herr=h) for m in (0, 1, 2) for h in (0, 1)] + [job("H_C04_stream_md", conc=True, reach=["checked"], mode=m, herr=0) for m in (3, 4)] + [job("H_C04_unary_md", conc=True, reach=["checked"], mode=m) for m in (0, 1, 2, 3)] + [c08e(0, 0, 1), c08e(1, 0, 1)],
+ "thorough": [c08e(0, 0, 1), c08e(1, 0, 1), c08e(0, 1, 1)] + [job("H_C04_unary_md", conc=True, reach=["checked"], mode=m) for m in (0, 1, 2, 3)] + [job("H_C04_stream_md", conc=True, reach=["checked"], mode=m, herr=0) for m in (3, 4)] + [job("H_C04_stream_md", conc=True, reach=["checked"], mode=m, herr=h) for m in (0, 1, 2) for h in (0, 1)] + [job("H_C04_request_md", reach=["checked"], deadline=0), job("H_C04_request_md", reach=["checked"], deadline=1), job("H_C04_roundtrip", reach=["checked"], K=2, V=2, vlen=2), job("H_C04_roundtrip", reach=["checked"], K=1, V=1, vlen=3, allbin=1),
               job("H_C04_roundtrip", reach=["checked"], K=3, V=1, vlen=3), job("H_C04_roundtrip", reach=["checked"], K=2, V=1, vlen=3, allbin=1), job("H_C04_join", reach=["checked"])],
 }
 
@@ -240,7 +245,7 @@ P["C17"] = {
 
 # ---------------------------------------------------------------- C18
 def c18(**kw): return job("H_C18_demux", conc=True, reach=["checked"], **kw)
-c18q = [c18(K=2, L=3, W=1), c18(K=2, L=2, W=1, cancelKey=1), c18(K=2, L=2, W=1, stop=1), c18(K=1, L=2, W=0, stop=1, slow=1), c18(K=2, L=2, W=1, cancelKey=1, stop=1), job("H_C18_cancel_pending", conc=True, reach=["checked"]), job("H_C18_cancel_parked_write", conc=True, reach=["checked"]), job("H_C18_reuse_after_cancel", conc=True, reach=["checked"], twice=0), job("H_C18_reuse_after_cancel", conc=True, reach=["checked"], twice=1)]
+c18q = [c18(K=2, L=3, W=1), c18(K=2, L=2, W=1, cancelKey=1), c18(K=2, L=2, W=1, stop=1), c18(K=1, L=2, W=0, stop=1, slow=1), c18(K=2, L=2, W=1, cancelKey=1, stop=1), job("H_C18_cancel_pending", conc=True, reach=["checked"]), job("H_C18_cancel_parked_write", conc=True, reach=["checked"]), job("H_C18_read_cancelled", conc=True, reach=["checked"]), job("H_C18_reuse_after_cancel", conc=True, reach=["checked"], twice=0), job("H_C18_reuse_after_cancel", conc=True, reach=["checked"], twice=1)]
 P["C18"] = {
  "title": "a demultiplexer gives each key its own ordered connection and shares the writer",
  "bounds": "L envelopes (3 quick / 4 thorough) over K keys (2 / 3) in every key assignment, consumers per logical connection reading and writing W envelopes each; Cancel(key) and Stop() at any point, concurrent with the run loop, readers and writers; slow consumers; all interleavings",
@@ -250,7 +255,7 @@ P["C18"] = {
 }
 
 # ---------------------------------------------------------------- C19
-c19q = [dict(job("H_C19_ws_read", reach=["valid", "rejected"]), env=True), dict(job("H_C19_ws_write", reach=["checked"]), env=True), dict(job("H_C19_ws_write", reach=["checked"], zero=1), env=True), job("H_C19_channel", conc=True, reach=["checked"]),
+c19q = [dict(job("H_C19_ws_read", reach=["valid", "rejected"]), env=True), dict(job("H_C19_ws_write", reach=["checked"]), env=True), dict(job("H_C19_ws_write", reach=["checked"], zero=1), env=True), dict(job("H_C19_http_ack", conc=True, reach=["checked"]), env=True), dict(job("H_C19_ws_write_conc", conc=True, reach=["checked"]), env=True, race=True), job("H_C19_channel", conc=True, reach=["checked"]),
         job("H_C19_http_serve", conc=True, reach=["valid", "rejected"]), job("H_C19_http_idle", conc=True, reach=["checked"], reader=0), job("H_C19_http_idle", conc=True, reach=["checked"], reader=1),
         dict(job("H_C19_http_idle", conc=True, reader=1), race=True), dict(job("H_C19_http_serve", conc=True), race=True)]
 P["C19"] = {
@@ -265,6 +270,7 @@ c20q = [job("H_C20_unary_chain", reach=["checked"], n=n) for n in (1, 2, 3, 4)] 
        [job("H_C20_stream_chain", reach=["checked"], n=n) for n in (1, 2, 3, 4)] + \
        [job("H_C20_stats_e2e", conc=True, reach=["checked"], H=h, kind=k, outcome=o) for h in (1, 2) for k in (0, 1) for o in (0, 1)] + \
        [job("H_C20_stats_e2e", conc=True, reach=["checked"], H=1, kind=1, outcome=o, late=1) for o in (0, 1)] + \
+       [job("H_C04_stream_md", conc=True, reach=["checked"], mode=0, herr=h) for h in (0, 1)] + \
        [job("H_C20_stats_failures", conc=True, reach=["checked"], H=2, outcome=o) for o in (0, 1, 2, 3, 4, 5)]
 P["C20"] = {
  "title": "interceptors and stats handlers see every RPC exactly once, in order",
